@@ -83,5 +83,16 @@ Definition prop_C38 (i o : val) : bool :=
   | _, _ => false
   end.
 
+(* executable well-formedness of an input: decodable, the hop list covers the connection-specific names (true of
+   HopHeaders), WriteHeader codes are valid HTTP status codes *)
+Definition hop_okb (hop : list bytes) : bool := forallb (fun c => mem_bytes (canon c) hop) conn_specific.
+Definition op_ok (o : hop_) : bool :=
+  match o with OWriteHeader c => (100 <=? c) && (c <=? 999) | _ => true end.
+Definition wf_C38 (i : val) : bool :=
+  match dec_input i with
+  | Some (e, ops) => hop_okb (e_hop e) && forallb op_ok ops
+  | None => false
+  end.
+
 (* no open finding class: the two defects found here were repaired in /repo (known_findings/C38.txt, fixed: lines) *)
 Definition kf_C38 (i : val) : Z := 0.
